@@ -48,7 +48,7 @@ def make_case(rng: Rng) -> Dict[str, Any]:
     case: Dict[str, Any] = {'kind': kind}
     if kind == 'generated':
         prof = W.profile(reexport=0.6, roots=(1, 2), cyclic=rng.sub('cyc').chance(0.3), star=0.4, nested=0.3, fields=0.3,
-                         zope=0.15, dup=0.3, dup_mixed=True)
+                         zope=0.15, dup=0.3, dup_mixed=True, submodule_clash=0.25, module_reexport=0.2)
         world = W.gen_world(rng.sub('world'), prof)
         case['world'] = world
         case['files'] = W.world_files(world)
@@ -226,12 +226,19 @@ def run_case(case: Dict[str, Any], faults: List[Dict[str, Any]]) -> Dict[str, An
                 if e[0] == 'enter' and e[2] > 0 and e[1] in broken_mods:
                     info['ondemand_broken'] += 1
             exotic = set(world['truth'].get('exotic', []))
+            clashing = {d['collides_with'] for d in world['truth']['defs'].values() if isinstance(d.get('collides_with'), str)}
             for name, m in world['modules'].items():
                 rel = W.modpath(name, m['pkg'])
                 if rel in changed:
                     continue
                 mobj = system.allobjects.get(name)
                 if not isinstance(mobj, simsystem.model.Module):
+                    if name in clashing:
+                        # its package defines the same name: pydoctor keeps the module under a renamed key ("n 0")
+                        mobj = next((o for k, o in system.allobjects.items() if isinstance(o, simsystem.model.Module)
+                                     and k.startswith(name + ' ')), None)
+                        if mobj is not None:
+                            continue
                     viols.append((f'undamaged-module-missing,fault={kinds}', f'module {name} is not registered'))
                     continue
                 if not os.path.exists(os.path.join(out, mobj.url)):
